@@ -163,7 +163,7 @@ func (e *Engine) buildVC(f *ssa.Function, cfg *FnConfig, dead map[string]bool) (
 	for ri, r := range c.rets {
 		// every return statement is reachable under everything that was assumed on the way to it
 		o := &Obl{Class: "cover", Fn: c.fnName(), Pos: c.eng.prog.Fset.Position(r.pos), Text: "this return is reachable (assumptions are consistent)", Guard: r.reach, Cond: "false", Expect: "sat"}
-		o.Name = fmt.Sprintf("%s#cover:return%d", c.fnName(), ri)
+		o.Name = fmt.Sprintf("%s#cover:%s", c.fnName(), c.retLabel(ri))
 		c.obls = append(c.obls, o)
 	}
 	return c, nil
